@@ -198,7 +198,7 @@ DELTA_KINDS = ["att_small", "att_small", "att_big", "att_over", "del_att", "dim"
 @st.composite
 def case_strategy(draw, tier="quick"):
     big = tier == "thorough"
-    k = draw(st.sampled_from([1, 2, 2, 3, 3, 4, 4] if not big else [1, 2, 3, 4, 4, 5, 7, 8]))
+    k = draw(st.sampled_from([1, 2, 2, 3, 3, 4, 4]))
     fmt = draw(st.sampled_from([1, 2, 5]))
     gs = GS(k)
     case = {"k": k, "fmt": fmt, "safe": G.chance(draw, 25), "info": draw(hints())}
@@ -216,7 +216,7 @@ def case_strategy(draw, tier="quick"):
         case["abort_create"] = None
     # ---- existing layout
     nfix = draw(st.integers(1, 4))
-    nrec = draw(st.integers(0, 3))
+    nrec = draw(st.sampled_from([0, 1, 1, 1, 2, 2, 3]))
     order = list(draw(st.permutations(["f"] * nfix + ["r"] * nrec)))
     vars_ = []
     for o in order:
@@ -335,6 +335,7 @@ class Builder:
         self.path = "t.nc"
         self.file_fill = False
         self.explicit_fill = {}     # var index -> fill spec decided by def_var_fill / dataset mode at definition time
+        self.session_first = 0      # index of the first variable defined in the current define-mode session
         self.labels = set(["k%d" % self.k, "fmt%d" % case["fmt"]])
         self.observations = []      # (stmt of dumpall, kind, info) for the post-run classification
         self.snap_checks = []       # (snapshot name, model copy, what)
@@ -450,6 +451,10 @@ class Builder:
         elif kind == "set_fill":
             self.op("set_fill", f="f0", mode=dl["mode"])
             self.file_fill = dl["mode"] == NC_FILL_MODE
+            # ncmpi_set_fill also overrides the mode of the variables defined so far; what that means for a variable whose
+            # mode was chosen with ncmpi_def_var_fill earlier in this session is not documented: such variables are not asserted
+            for vi in range(self.session_first, len(fm.vars)):
+                self.explicit_fill[vi] = None
             self.labels.add("set_fill")
         elif kind == "var":
             self.def_var(dl)
@@ -604,6 +609,7 @@ def build(case):
             b.fence()
             b.snapshot("pre%d" % si)
         b.op("redef", f="f0")
+        b.session_first = nvold
         for dl in stp["deltas"]:
             b.delta(dl)
         nrec_old = sum(1 for v in fm.vars[:nvold] if fm.is_rec(v))
@@ -713,8 +719,8 @@ def classify(b, res, ctx):
                 ctx.count("moved_record_section")
             if restride:
                 ctx.count("record_stride_changed")
-            if moved_fix and not grew:
-                ctx.count("moved_fixed_without_header_growth")
+            if moved_rec and not moved_fix:
+                ctx.count("moved_record_section_only")
             if moved_fix or moved_rec or restride:
                 ctx.count("enddef_moved_data")
                 if nr >= 2 or info["curk"] >= 2:
@@ -733,7 +739,7 @@ def run_case(ctx, case):
     if case.get("big"):
         return run_big(ctx, case)
     b = build(case)
-    pool = ctx.pool("asan", nprocs=4 if case["k"] <= 4 else 8)
+    pool = ctx.pool("asan", nprocs=4)
     res, d = pool.run(b.p.s, keepdir=True)
     try:
         probs = b.p.evaluate(res)
@@ -914,7 +920,7 @@ def case_script(case):
 
 
 def campaign(ctx):
-    n = {"quick": 64, "thorough": 1250}[ctx.tier]
+    n = {"quick": 66, "thorough": 1150}[ctx.tier]
     runner.run_hypothesis(ctx, case_strategy(ctx.tier), runner.guarded(run_case), n)
     if ctx.widx == 0:
         runner.run_hypothesis(ctx, big_strategy(ctx.tier), runner.guarded(run_case), {"quick": 2, "thorough": 6}[ctx.tier], label="big")
